@@ -32,6 +32,8 @@ Definition show_key (k : key) : string :=
 Definition show_err (e : err) : string :=
   match e with
   | ENoSafe => show_string "ValueError:nosafe"
+  | ELoop => show_string "MODEL:symlink-loop"
+  | EFuel => show_string "MODEL:out-of-fuel"
   | EValue p => show_string "ValueError"
   | EUnsafe => show_string "UnsafeFilenameError"
   | EParse n => show_str n
